@@ -44,8 +44,12 @@ theorem printS_count {mem : List Char} {width maxLen : Int} {ops : Ops} {out : L
   · rename_i n hn
     have hle : n ≤ mem.length := by
       split at hn
-      · exact (strnlen_le hn).1
-      · exact Nat.le_of_lt (strlen_le hn)
+      · split at hn
+        · cases hn; assumption
+        · cases hn
+      · split at hn
+        · exact (strnlen_le hn).1
+        · exact Nat.le_of_lt (strlen_le hn)
     simp only [Option.some.injEq, Prod.mk.injEq] at h
     obtain ⟨h1, h2⟩ := h
     subst h1 h2
@@ -158,7 +162,8 @@ theorem convert_ok {begin s : List Char} {args : List Arg} {w p : Int} {ops : Op
   split at h
   · split at h
     · cases h
-    · obtain ⟨h1, h2, _⟩ := fin_ok h
+    · generalize hops : ({ (if (hd s).isUpper = true then { ops with upper := true } else ops) with chr := true } : Ops) = opsc at h
+      obtain ⟨h1, h2, _⟩ := fin_ok h
       exact ⟨printS_count h1, by subst h2; simp⟩
   split at h
   · split at h
